@@ -45,6 +45,7 @@ type c05Params struct {
 	out, in  int // telegrams client->bus, bus->client
 	prefix   int // acknowledged exchanges in both directions before exploration (wrap)
 	dupDelay bool
+	apps     int // concurrent application goroutines sharing the outbound telegrams (default 1)
 }
 
 func c05Run(p c05Params) func() {
@@ -174,7 +175,7 @@ func c05Run(p c05Params) func() {
 			quietNet = false
 			mc.SetQuiet(false)
 		}
-		done := mc.NewChan[int](2, "c05.done")
+		done := mc.NewChan[int](8, "c05.done")
 		mc.GoEnv("gateway-sender", func() {
 			for i := 0; i < p.in; i++ {
 				if !gwSendOne(200 + i) {
@@ -183,16 +184,24 @@ func c05Run(p c05Params) func() {
 			}
 			done.Send(1)
 		})
-		mc.GoEnv("app", func() {
-			for i := 0; i < p.out; i++ {
-				t0 := mc.Now()
-				err := t.Send(Msg(i))
-				mc.Log(Ret{"Send", i, errStr(err), t0})
-			}
-			done.Send(1)
-		})
-		done.Recv()
-		done.Recv()
+		apps := p.apps
+		if apps < 1 {
+			apps = 1
+		}
+		for a := 0; a < apps; a++ {
+			a := a
+			mc.GoEnv(fmt.Sprintf("app%d", a), func() {
+				for i := a; i < p.out; i += apps {
+					t0 := mc.Now()
+					err := t.Send(Msg(i))
+					mc.Log(Ret{"Send", i, errStr(err), t0})
+				}
+				done.Send(1)
+			})
+		}
+		for a := 0; a < apps+1; a++ {
+			done.Recv()
+		}
 		mc.Sleep(T + 3*R)
 		t.Close()
 	}
@@ -324,6 +333,8 @@ func init() {
 	register("both", &h.Scenario{Name: "C05-direct-T=R-F2-P1", Prop: "C05", P: 1, F: 2, D: 1, Run: c05Run(c), Check: c05Oracle(c)})
 	d := c05Params{R: 100, T: 150, out: 2, in: 2, dupDelay: true, prefix: 254}
 	register("both", &h.Scenario{Name: "C05-direct-wrap254-F2", Prop: "C05", P: 0, F: 2, D: -1, Run: c05Run(d), Check: c05Oracle(d)})
+	g := c05Params{R: 100, T: 150, out: 4, in: 1, apps: 2}
+	register("both", &h.Scenario{Name: "C05-direct-2apps-4out-1in-loss-F1-P2", Prop: "C05", P: 2, F: 1, D: 2, Run: c05Run(g), Check: c05Oracle(g)})
 	e := c05Params{R: 100, T: 350, out: 3, in: 3, dupDelay: true}
 	register("thorough", &h.Scenario{Name: "C05-direct-3out-3in-F3", Prop: "C05", P: 0, F: 3, D: -1, Run: c05Run(e), Check: c05Oracle(e)})
 	f := c05Params{R: 100, T: 150, out: 3, in: 2, dupDelay: true}
